@@ -53,12 +53,23 @@ def run(chk, tier):
             m = vec_mut.search(t['resolved'] or t['callee'])
             if m and t['atys'][0].startswith('&mut') and re.search(r'Vec<\(trippy_core::flows::Flow, [\w:]*FlowId\)>', t['atys'][0]):
                 hits.append((path, m.group(1) or m.group(2), t['sp']))
-    bad = [(p_, n, sp) for (p_, n, sp) in hits if not (n == 'push' and prog.fns[p_].get('name') == 'register')]
+    cg0 = CallGraph(prog)
+
+    def only_from_register(p_, depth=0):
+        """register itself, or a private helper of the registry that nothing but register (transitively) calls"""
+        f_ = prog.fns[p_]
+        if f_.get('name') == 'register' and f_.get('impl_adt') == REG:
+            return True
+        if depth > 3 or f_.get('impl_adt') != REG or f_.get('pubvis'):
+            return False
+        callers_ = [c for c in cg0.callers(p_) if '::tests::' not in c]
+        return bool(callers_) and all(only_from_register(c, depth + 1) for c in callers_)
+    bad = [(p_, n, sp) for (p_, n, sp) in hits if not (n == 'push' and only_from_register(p_))]
     pushes = [h for h in hits if h[1] == 'push']
     if bad:
         chk.fail('R1', 'vec-mutators', loc(bad[0][2]), 'FlowRegistry.flows is modified by %s in %s: issued ids would be dropped or reordered' % (bad[0][1], short(bad[0][0])), key='R1|mutator|%s|%s' % (short(bad[0][0]), bad[0][1]))
     elif len(pushes) == 1:
-        chk.ok('R1', 'vec-mutators', 'one push, in FlowRegistry::register')
+        chk.ok('R1', 'vec-mutators', 'one push, in FlowRegistry::register (or a private helper only register calls)')
     else:
         chk.fail('R1', 'vec-mutators', '?', '%d push sites on FlowRegistry.flows' % len(pushes), key='R1|pushes')
     cg = CallGraph(prog)
@@ -161,9 +172,16 @@ def run(chk, tier):
         elif o.kind == 'return' and (old or new):
             rows[cell] = (val, bool(adds))
         elif o.kind == 'return':
-            longer = [v for a, v in d if re.fullmatch(r'Gt\(len\(flow\.entries\), len\(self\.entries\)\)', a)]
-            addp = [v for a, v in d if re.fullmatch(r'Gt\(loop\d+\.additions, 0\)', a)]
-            post[(longer[0] if longer else None, addp[0] if addp else None)] = val
+            # either spelling / polarity of the two tests (`new longer than recorded`, `additions > 0`)
+            from ..tables import holds
+            lg = holds(o.st.decisions, 'Gt(len(flow.entries), len(self.entries))')
+            adn = [vshow(a) for a, v, _ in o.st.decisions if re.search(r'loop\d+\.additions', vshow(a))]
+            ad = None
+            for a_ in adn:
+                m_ = re.search(r'(loop\d+\.additions)', a_)
+                h_ = holds(o.st.decisions, 'Gt(%s, 0)' % m_.group(1))
+                ad = h_ if h_ is not None else ad
+            post[(lg, ad)] = val
         else:
             rows[cell] = (o.kind, False)
     # expected body rows: (Known, Known, differ) → NoMatch; (Unknown, Known) → additions += 1; everything else → continue unchanged
@@ -261,6 +279,34 @@ def run(chk, tier):
             if name == 'NoMatch' and (merges or o.kind == 'return'):
                 okr = False
         inst = short(f_['path']) + ':dispatch'
+        if not seen:
+            # the same scan as `self.flows.iter_mut().find_map(|(entry, id)| match entry.check(flow) { .. })`: find_map stops at the first Some (std
+            # contract), so the closure's table per status decides the dispatch: NoMatch ⇒ None (next flow), otherwise Some(id), merging iff MatchMerge
+            fcl = [c_ for c_ in prog.fns.values() if c_['kind'] == 'Closure' and c_.get('parent') == f_['path']]
+            fm = [c for o in outs for c in user_calls(o, r'::find_map$')]
+            direct = outs and all(o.kind == 'return' and re.fullmatch(r'call:\w+::find_map\(call:slice::iter(_mut)?\((?:havoc:[^,]*\()?self\.flows.*', vshow(o.value)) for o in outs)
+            if len(fcl) == 1 and fm and direct:
+                ec = RangeEngine(prog, inline_depth=1, opaque=OPQ)
+                stc = St()
+                entry = ec.sym_ref(stc, 'entry')
+                co = ec.run(fcl[0], [ec.sym_ref(stc, 'env'), ('tuple', [entry, ec.sym_ref(stc, 'id')])], stc)
+                okr = bool(co)
+                for o in co:
+                    d = [(vshow(a), v) for a, v, _ in o.st.decisions]
+                    stt = [v for a, v in d if re.fullmatch(r'discr\(call:Flow::check\(.*\)\)', a)]
+                    if not stt or isinstance(stt[-1], tuple) or o.kind != 'return':
+                        okr = False
+                        continue
+                    name = csv[stt[-1]]
+                    seen.add(name)
+                    merges = user_calls(o, r'Flow::merge$')
+                    val = vshow(o.value)
+                    if name == 'NoMatch' and (val != 'Option::None' or merges):
+                        okr = False
+                    if name == 'Match' and (val != 'Option::Some(id)' or merges):
+                        okr = False
+                    if name == 'MatchMerge' and (val != 'Option::Some(id)' or len(merges) != 1):
+                        okr = False
         if okr and {'Match', 'MatchMerge', 'NoMatch'} <= seen:
             chk.ok('R3', inst, 'Match → return id; MatchMerge → merge, return id; NoMatch → next flow')
         else:
@@ -344,9 +390,19 @@ def run(chk, tier):
     from .state_common import PS, CELLS
     ADAPT = r'Iterator::(take|skip|filter|step_by|rev|take_while|skip_while|filter_map|map|zip|chain|enumerate|flat_map|flatten|map_while|scan|peekable|fuse|cycle|inspect)$'
     chain_ok, chain_why, fm_cl = bool(outs), '', None
-    for o in outs:
+    # the flow may be built in a private helper of State that only sees the round (no self): such helpers are part of the expression
+    e7o = Engine(prog, inline_depth=1, inline_filter=lambda c: prog.fns.get(c, {}).get('impl_adt') == 'trippy_core::state::State' and
+                 not any(l_['ty'].startswith(('&mut trippy_core::state::State', '&trippy_core::state::State')) for l_ in prog.fns[c]['locals'][1:prog.fns[c].get('argc', 0) + 1])
+                 and not c.endswith('::default_flow_id'))
+    st7 = St()
+    outs7 = e7o.run(fu, [e7o.sym_ref(st7, 'self'), e7o.sym_ref(st7, 'round')], st7)
+    cl_paths = set()
+    for o in outs7:
         if o.kind != 'return':
             continue
+        for c in user_calls(o, r'Iterator::filter_map$'):
+            if isinstance(c[7][1], tuple) and c[7][1][0] == 'closure':
+                cl_paths.add(c[7][1][1])
         fh_calls = user_calls(o, r'flows::Flow::from_hops$')
         if len(fh_calls) != 1:
             chain_ok, chain_why = False, 'Flow::from_hops is called %d times on a trace' % len(fh_calls)
@@ -356,7 +412,7 @@ def run(chk, tier):
         m = re.fullmatch(r'(?:call:Iterator::take\()?call:Iterator::filter_map\(call:(?:slice::iter|IntoIterator::into_iter|iter::into_iter)\(round\.probes\), closure:([\w:{}#]+)\)(?:, round\.largest_ttl\.0\))?', src)
         if not m or sorted(ad) not in (['filter_map'], ['filter_map', 'take']):
             chain_ok, chain_why = False, 'the flow of a round is built from %s (adaptors %s): expected the slots of round.probes in order, selected by one filter_map, optionally cut at round.largest_ttl' % (src[:140], ad)
-    cls = [c for c in prog.fns.values() if c.get('parent') == fu['path'] and c['kind'] == 'Closure']
+    cls = [prog.fns[p_] for p_ in sorted(cl_paths) if p_ in prog.fns]
     if chain_ok and len(cls) == 1:
         chk.ok('R7', 'chain', 'Flow::from_hops(round.probes.iter().filter_map(slot → position)[.take(round.largest_ttl)])')
         ec = Engine(prog, inline_depth=1)
